@@ -226,6 +226,31 @@ func (s *sfSim) loadFile(fs vfs.FS, fp string, bufsz int) (sess []byte, payload 
 	return all[:16], all[16:], false
 }
 
+// loadFileExact is a consumer that knows how much it wants (length-prefixed decoding, io.ReadFull): it reads
+// exactly `total` bytes of the stored stream, never asks for more - so it never sees io.EOF - and closes the reader
+func (s *sfSim) loadFileExact(fs vfs.FS, fp string, total int) (sess []byte, payload []byte, failed bool) {
+	defer func() {
+		if x := recover(); x != nil {
+			failed = true
+		}
+	}()
+	r, header, err := NewSnapshotReader(fp, fs)
+	if err != nil {
+		return nil, nil, true
+	}
+	cr := dio.NewDecompressor(header.CompressionType, r)
+	defer func() {
+		if err := cr.Close(); err != nil {
+			failed = true
+		}
+	}()
+	all := make([]byte, total)
+	if _, err := io.ReadFull(cr, all); err != nil || total < 16 {
+		return nil, nil, true
+	}
+	return all[:16], all[16:], false
+}
+
 func validate(data []byte, chunk int) (ok bool) {
 	defer func() {
 		if x := recover(); x != nil {
@@ -441,6 +466,10 @@ func (s *sfSim) fileV(ver SSVersion, n int, ct pb.CompressionType, zero bool) {
 			} else {
 				p.Res = "diff"
 			}
+		} else if gs, gp, failed := s.loadFileExact(fs, fp2, len(sess)+len(payload)); !failed &&
+			!(bytes.Equal(gs, sess) && bytes.Equal(gp, payload)) {
+			// a reader that stops at the end of what it expects was handed altered bytes without an error
+			p.Res = "diff"
 		}
 		if validate(d, 1+s.rng.Intn(len(d))) {
 			p.VRes = "accept"
